@@ -885,27 +885,36 @@ def _process_run(c):
     return out
 
 
+QUICK_POOL = [(1, 2), (2, 2), (3, 1), (3, 3), (4, 2), (4, 4)]
+
+
 def cases_schedules(tier):
-    out = []
+    """family x 1..4 time points x {serial, every in-process task order, real
+    Pool with n_cpu 1..4}; quick: the full worker grid for the first family,
+    the six (time points, n_cpu) pairs QUICK_POOL for the others.  The slow
+    subprocess cases come first (load balance only)."""
+    slow, fast = [], []
     for fam in FAMILIES:
         for n in (1, 2, 3, 4):
-            out.append({'part': 'schedules', 'family': fam, 'ntp': n, 'mode': 'serial',
-                        'workers': 0, 'orderstr': '-'})
+            fast.append({'part': 'schedules', 'family': fam, 'ntp': n, 'mode': 'serial',
+                         'workers': 0, 'orderstr': '-'})
             for order in itertools.permutations(range(n)):
-                out.append({'part': 'schedules', 'family': fam, 'ntp': n, 'mode': 'inproc',
-                            'workers': 0, 'order': list(order),
-                            'orderstr': ''.join(str(k) for k in order)})
+                fast.append({'part': 'schedules', 'family': fam, 'ntp': n, 'mode': 'inproc',
+                             'workers': 0, 'order': list(order),
+                             'orderstr': ''.join(str(k) for k in order)})
             for w in (1, 2, 3, 4):
                 if n == 1 and w != 2:
                     continue        # parallel is ignored for one time point
-                out.append({'part': 'schedules', 'family': fam, 'ntp': n, 'mode': 'pool',
-                            'workers': w, 'orderstr': '-'})
+                if tier == 'quick' and fam != FAMILIES[0] and (n, w) not in QUICK_POOL:
+                    continue
+                slow.append({'part': 'schedules', 'family': fam, 'ntp': n, 'mode': 'pool',
+                             'workers': w, 'orderstr': '-'})
     for fam in FAMILIES:
-        out.append({'part': 'schedules', 'family': fam, 'ntp': 1, 'mode': 'fresh2',
-                    'workers': 0, 'orderstr': '-'})
-    out.append({'part': 'schedules', 'family': 'tables', 'ntp': 2, 'mode': 'fresh2',
-                'workers': 0, 'orderstr': '-'})
-    return out
+        slow.append({'part': 'schedules', 'family': fam, 'ntp': 1, 'mode': 'fresh2',
+                     'workers': 0, 'orderstr': '-'})
+    slow.append({'part': 'schedules', 'family': 'tables', 'ntp': 2, 'mode': 'fresh2',
+                 'workers': 0, 'orderstr': '-'})
+    return slow + fast
 
 
 def run_schedule(c):
